@@ -14,8 +14,14 @@ import (
 	"strings"
 	"time"
 
+	goframe "github.com/kishyassin/goframe"
 	"github.com/kishyassin/goframe/dataframe"
 )
+
+// viaRoot: the root package goframe re-exports the constructors and readers as thin wrappers; a third of
+// the calls that have a wrapper go through it (chosen from the operation's own content, so that a replay of
+// one history takes the same path)
+func viaRoot(o Op) bool { return (len(o.Bytes)+len(o.Cells)+len(o.S1)+int(o.N%7+7))%3 == 0 }
 
 type Runner struct {
 	pool   []*dataframe.DataFrame
@@ -415,6 +421,9 @@ func (r *Runner) Exec(o Op) (out Out) {
 			}
 			return derive(dataframe.NewDataFrame().FromCSV(path))
 		}
+		if viaRoot(o) {
+			return derive(goframe.FromCSVReader(bytes.NewReader([]byte(o.Bytes))))
+		}
 		return derive(dataframe.FromCSVReader(bytes.NewReader([]byte(o.Bytes))))
 	case "tocsv", "csvroundtrip":
 		var buf bytes.Buffer
@@ -516,6 +525,9 @@ func (r *Runner) Exec(o Op) (out Out) {
 		data := make([]any, len(o.Cells))
 		for i, c := range o.Cells {
 			data[i] = c.ToAny()
+		}
+		if viaRoot(o) {
+			return edit(goframe.AddTypedColumn(df, goframe.NewColumn(string(o.S1), data)))
 		}
 		return edit(dataframe.AddTypedColumn(df, dataframe.NewColumn(string(o.S1), data)))
 	case "dropcolumn":
